@@ -48,7 +48,7 @@ def ensure(ctx):
 def layout(tier):
     seg = []
     if tier == "thorough":
-        seg += [("suite", len(W.test_files())), ("prog", 4000), ("hist", 900)]
+        seg += [("suite", len(W.test_files())), ("prog", 4000), ("hist", 1500)]
         per = 200
     else:
         seg += [("prog", 300), ("hist", 120)]
